@@ -115,7 +115,20 @@ class caching_repo:
         return v
 
     def itermatch(self, restrict):
-        return iter(self.match(restrict))
+        # walk the shared caching_iter by index: its own iterators are not
+        # safe to interleave (an iterator that is already consuming the
+        # underlying source never sees items another iterator pulled from it),
+        # and the resolver does interleave them- nested frames query the same
+        # restriction.
+        matches = self.match(restrict)
+        idx = 0
+        while True:
+            try:
+                pkg = matches[idx]
+            except IndexError:
+                return
+            yield pkg
+            idx += 1
 
     __getattr__ = GetAttrProxy("__db__")
     __dir__ = DirProxy("__db__")
